@@ -178,6 +178,32 @@ def run(tier: str) -> int:
     rep.evaluations += carried
     rep.extra["one_position_per_temporary_text"] = carried
 
+    # a text beyond one MiB (an implementation may switch strategy with size): the block t, whose table TLC supplied, repeated;
+    # t ends with a line break, so offset p of copy i lies in line line_t(p) + i * lines_t at the same column
+    blocks = [k for k in tables if len(k) >= 5 and k[-1] == 3 and 3 in k[:-1]]
+    if blocks:
+        kb = rnd2.choice(blocks)
+        tb = "".join(SYM[c] for c in kb)
+        reps = (1 << 20) // len(tb) + 50
+        big = tb * reps
+        lines_t = tb.count("\n")
+        nbig = 0
+        for _ in range(40 if not thorough else 400):
+            i = rnd2.randrange(reps)
+            for p in range(len(tb)):
+                got = tuple(_Position(big, i * len(tb) + p).line_col())
+                want = (tables[kb][p][0] + i * lines_t, tables[kb][p][1])
+                nbig += 1
+                if got != want:
+                    rep.violation({"kind": "linecol-big", "block": tb, "copies": reps, "offset": i * len(tb) + p, "expected": list(want), "observed": list(got)},
+                                  f"Position(<{tb!r} x {reps}, {len(big)} characters>, {i * len(tb) + p}).line_col() = {got}, LineCol = {want}")
+                    break
+        got = tuple(_Position(big, len(big)).line_col())
+        if got != (1 + reps * lines_t, 1):
+            rep.violation({"kind": "linecol-big", "block": tb, "copies": reps, "offset": len(big), "expected": [1 + reps * lines_t, 1], "observed": list(got)}, f"Position(<{len(big)} characters>, end).line_col() = {got}")
+        rep.evaluations += nbig
+        rep.extra["positions_in_a_text_beyond_one_MiB"] = nbig
+
     # code -> spec on long and non-ASCII texts
     from pest import Position  # noqa: PLC0415
 
